@@ -247,7 +247,7 @@ var timePool = []time.Time{
 	time.Unix(0, 0).UTC(),
 }
 
-var stringPool = []string{"", "a", "héllo", "x y", "\"q\"", "line\nbreak", "back\\slash", "😀", "0", "true", "null", "tab\there"}
+var stringPool = []string{"", "a", "héllo", "x y", "\"q\"", "line\nbreak", "back\\slash", "😀", "0", "true", "null", "tab\there", "fail:1", "both:2"}
 
 var intKinds = []string{"int32", "int", "int64", "int16", "int8", "uint8", "uint16", "uint32", "uint", "uint64"}
 
